@@ -287,6 +287,12 @@ pub fn c04(seed: u64, thorough: bool, tw: &mut TraceWriter) -> Cov {
                         (0, cfg.rtt / 4 - 1)
                     } else {
                         cfg.period = 3000;
+                        // indirect probing runs routinely in this regime; with periodic announce on and packets
+                        // too small for a whole feed, truncated Feed replies are assembled while probes are in flight
+                        if n >= 4 && master.random_range(0..2) == 0 {
+                            cfg.pa = Some((cfg.period, 1));
+                            cfg.maxpkt = 30;
+                        }
                         (cfg.rtt / 2 + 10, (cfg.period - cfg.rtt) / 4 - 10)
                     };
                     let cseed: u64 = master.random();
